@@ -505,7 +505,11 @@ def _getitem_core(ctx: Ctx, a: Arr, keys, checked=()):
                 bounds = T.And(*[T.And(0 <= v, T.lt(v, d)) for v, d in zip(fr, k.shape)])
                 e = k.fn(*fr)
                 goal = T.ForAll(fr, T.Implies(bounds, T.And(T.le(T.neg(n), e), T.lt(e, n))))
-                ctx.oblige(goal, "fancy-index-in-bounds", kind="index")
+                if getattr(ctx, "index_errors_raise", False):
+                    # contract about rejections: an out-of-range index is NumPy's IndexError, not a proof obligation
+                    ctx.raise_unless(goal, "IndexError", "index out of bounds")
+                else:
+                    ctx.oblige(goal, "fancy-index-in-bounds", kind="index")
             plans.append(("fancy", k, fancy_pos.index(i), n))
         elif isinstance(k, slice):
             start, length, step = slice_bounds(ctx, k, n)
@@ -1613,7 +1617,9 @@ def prod_axioms():
             [s],
             z3.Or(PRODR(s) >= 1, z3.And(0 <= w, w < rlen(s), relem(s, w) <= 0)),
             [PRODR(s)],
-        )
+        ),
+        # the empty product
+        T.ForAll([s], z3.Implies(rlen(s) == 0, PRODR(s) == 1), [PRODR(s)]),
     ]
 
 
